@@ -67,7 +67,7 @@ Section Exact.
   Theorem exact_for_posted_state :
     post_acyclic st flags g = Ok (posted_state st flags g) /\
     ((exists en', agree_below (next_id st) en en' /\
-                  in_bounds_from en' (next_id st) (new_vars st g) = true /\
+                  in_bounds_from en' (next_id st) (new_vars g) = true /\
                   forallb (holds gsem en') (new_cons st flags g) = true)
      <-> forest g A).
   Proof.
@@ -100,7 +100,7 @@ Theorem acyclic_exact : forall gsem st flags g A en,
 Proof.
   intros gsem st flags g A en Hwf Hlf Hn Hfl.
   destruct (exact_for_posted_state gsem st flags g A en Hwf Hlf Hn Hfl) as [Hp Hiff].
-  exists (posted_state st flags g), (new_vars st g), (new_cons st flags g).
+  exists (posted_state st flags g), (new_vars g), (new_cons st flags g).
   split; [exact Hp|]. split; [reflexivity|]. split; [|split; [reflexivity|exact Hiff]].
   simpl. unfold new_vars. rewrite repeat_length. reflexivity.
 Qed.
